@@ -115,6 +115,21 @@ ROWS = {
                           intent="out",
                           lib_set="{n}.assign((size_t)(acc % 4), 0); for (size_t i_ = 0; i_ < {n}.size(); i_++) {n}[i_] = (int)(acc % 50) + (int)i_ + {w};",
                           lib_out="vt_arr_int({n}.data(), (long){n}.size());", vals=VEC_VALS),
+    # rank 2 (docs/pointers.rst, +rank / +dimension with size(x,dim)): Fortran only.  Arrays are logged with their
+    # two extents in front of the elements (Fortran element order).
+    "arr2_in": dict(yaml="const int *{n} +rank(2)", cxx="const int *{n}", ty="arri", intent="in",
+                    lib_in="{{ std::vector<int> t_; t_.push_back({m1}); t_.push_back({m2}); for (int i_ = 0; i_ < {m1} * {m2}; i_++) t_.push_back({n}[i_]); vt_arr_int(t_.data(), (long)t_.size()); }}",
+                    acc="for (int i_ = 0; i_ < {m1} * {m2}; i_++) acc += {w} * (long)({n}[i_] % 100);", vals=VEC_VALS),
+    "arr2_n1": dict(yaml="int {n}", cxx="int {n}", ty="int", intent="in",
+                    lib_in="vt_int({n});", acc="acc += {n};", vals=VEC_VALS),
+    "arr2_n2": dict(yaml="int {n}", cxx="int {n}", ty="int", intent="in",
+                    lib_in="vt_int({n});", acc="acc += 3 * {n};", vals=VEC_VALS),
+    # the transposed array: extents (size(in,2), size(in,1))
+    "arr2_out": dict(yaml="int *{n} +intent(out)+deref(allocatable)+dimension(size({a},2),size({a},1))", cxx="int *{n}", ty="arri",
+                     intent="out",
+                     lib_set="for (int j_ = 0; j_ < {m1}; j_++) for (int i_ = 0; i_ < {m2}; i_++) {n}[j_ * {m2} + i_] = {a}[i_ * {m1} + j_] + (int)(acc % 7);",
+                     lib_out="{{ std::vector<int> t_; t_.push_back({m2}); t_.push_back({m1}); for (int i_ = 0; i_ < {m1} * {m2}; i_++) t_.push_back({n}[i_]); vt_arr_int(t_.data(), (long)t_.size()); }}",
+                     vals=VEC_VALS),
     "cls_p": dict(yaml="Cls *{n}", cxx="Cls *{n}", ty="obj", intent="in",
                   lib_in="vt_obj({n});", acc="acc += {w} * (long)({n}->value % 100);",
                   c_decl="", c_arg="&{obj}", c_in="vt_obj({obj}.addr);", vals=["1"] * 6, needs_obj=True),
@@ -174,6 +189,9 @@ def base_cases():
     c.append(F("f14", "int", [P("int_v", "a"), P("cstr_in", "s")], overload=2))
     c.append(F("f15", "T", [P("T_v", "a")], template=["int", "double"]))
     c.append(F("f16", "bool", [P("bool_pinout", "flag"), P("bool_v", "g")]))
+    # a function template whose parameter list mixes the template parameter with ordinary parameters (docs/templates.rst)
+    c.append(F("f20", "T", [P("T_v", "a"), P("int_v", "n"), P("dbl_pout", "o")], template=["int", "double"]))
+    c.append(F("f21", "int", [P("int_v", "k"), P("T_v", "a")], template=["int", "double"]))
     c.append(F("f17", "int", [P("double_v", "x"), P("int_v", "a", default="7"), P("bool_v", "b", default="true")]))
     return c
 
@@ -193,6 +211,9 @@ def fval(kind, v):
 
 
 FPT = "call vt_arr_int([{n}%x, int({n}%y * 4, C_INT)], 2_C_LONG)"
+
+F2D = ("call vt_arr_int([int(size({n}, 1), C_INT), int(size({n}, 2), C_INT), reshape({n}, [size({n})])], "
+       "int(size({n}), C_LONG) + 2_C_LONG)")
 
 FROWS = {
     "int_v": dict(decl="integer(C_INT) :: {n}", set="{n} = {v}", arg="{n}", fin="call vt_int(int({n}, C_LONG))", vk="int"),
@@ -233,6 +254,12 @@ FROWS = {
                       fin="call vt_arr_int({n}(1:{sz}), {sz}_C_LONG)", fout="call vt_arr_int({n}(1:{sz}), {sz}_C_LONG)", vk="int"),
     "vec_out_alloc": dict(decl="integer(C_INT), allocatable :: {n}(:)", set="continue", arg="{n}",
                           fout="call vt_arr_int({n}, size({n}, kind=C_LONG))", vk="int"),
+    # rank 2: {r} x {c} is (3,2), (1,4), (2,2), (4,1) in turn
+    "arr2_in": dict(decl="integer(C_INT) :: {n}({r},{c}), k_{n}", set="{n} = reshape([(k_{n} * 3 + {v}, k_{n} = 1, {r} * {c})], [{r}, {c}])",
+                    arg="{n}", fin=F2D, vk="int"),
+    "arr2_n1": dict(decl="integer(C_INT) :: {n}", set="{n} = size({a}, 1)", arg="{n}", fin="call vt_int(int({n}, C_LONG))", vk="int"),
+    "arr2_n2": dict(decl="integer(C_INT) :: {n}", set="{n} = size({a}, 2)", arg="{n}", fin="call vt_int(int({n}, C_LONG))", vk="int"),
+    "arr2_out": dict(decl="integer(C_INT), allocatable :: {n}(:,:)", set="continue", arg="{n}", fout=F2D, vk="int"),
 }
 
 FRESULTS = {
@@ -254,7 +281,9 @@ def vector_cases():
             F("v2", "void", [P("vec_inout", "v")]),
             F("v3", "int", [P("int_v", "k"), P("vec_out_alloc", "v")]),
             F("v4", "iptr3", [P("int_v", "k")]),
-            F("v5", "double", [P("vec_in", "a"), P("vec_inout", "b"), P("vec_out_alloc", "c")])]
+            F("v5", "double", [P("vec_in", "a"), P("vec_inout", "b"), P("vec_out_alloc", "c")]),
+            F("v6", "void", [P("arr2_in", "src", m1="nr", m2="nc"), P("arr2_n1", "nr", a="src"), P("arr2_n2", "nc", a="src"),
+                             P("arr2_out", "dst", a="src", m1="nr", m2="nc")])]
 
 
 def fortran_cases():
